@@ -54,6 +54,32 @@ pub fn wide_cnf(rng: &mut Rng, max_vars: usize, max_occ: usize) -> Vec<Vec<(usiz
     out
 }
 
+/// "regrouping" CNFs: the same literals grouped into clauses in two ways, each grouping guarded by a selector literal.
+/// Assigning the selectors one way or the other leaves residuals with the same literal multiset but different
+/// clauses (a residual hash that forgets clause boundaries collides). Returns (clauses, selector literals whose
+/// FALSIFICATION activates grouping 1 / grouping 2, number of variables). Variables are relabelled at random.
+pub fn regroup_cnf(rng: &mut Rng, nmax: usize) -> Option<(Vec<Vec<(usize, bool)>>, Vec<(usize, bool)>, usize)> {
+    let two = nmax >= 6 && rng.coin();
+    let nv = if two { 6 } else { 5 };
+    if nmax < nv {
+        return None;
+    }
+    let relabel = rng.perm(nv);
+    let lit = |v: usize, p: bool| (relabel[v], p);
+    let base: Vec<(usize, bool)> = (0..4).map(|v| lit(v, rng.coin())).collect();
+    let (a, b, c, d) = (base[0], base[1], base[2], base[3]);
+    let s1 = lit(4, rng.coin());
+    let s2 = if two { lit(5, rng.coin()) } else { (s1.0, !s1.1) };
+    let mut cl = vec![vec![s1, a, b], vec![s1, c, d], vec![s2, a, c], vec![s2, b, d]];
+    if rng.coin() {
+        cl.push(vec![lit(rng.below(4), rng.coin()), lit(4, rng.coin())]); // a bystander clause
+    }
+    for i in (1..cl.len()).rev() {
+        cl.swap(i, rng.below(i + 1));
+    }
+    Some((cl, vec![s1, s2], nv))
+}
+
 pub fn mk_cnf(c: &[Vec<(usize, bool)>]) -> Cnf {
     let cl: Vec<Vec<Literal>> = c
         .iter()
@@ -109,11 +135,28 @@ pub fn record_sat(args: &Args) {
     let nmax = args.num("nmax", 5) as usize;
     let attack = args.num("attack", 0) != 0;
     let wide = args.num("wide", 0) != 0;
+    let regroup = args.num("regroup", 1) != 0;
     let mut out = Out::new(&args.str("out", "-"));
     let mut rng = Rng::new(seed ^ 0x5a7);
     out.emit(json!({"ev": "init", "kind": "sat", "nmax": nmax, "seed": seed}));
     for _ in 0..segs {
-        let c = if wide { wide_cnf(&mut rng, nmax, 25) } else { rand_cnf(&mut rng, nmax, 8, 25) };
+        let mut script: std::collections::VecDeque<Option<(usize, bool)>> = Default::default();
+        let mut c = if wide { wide_cnf(&mut rng, nmax, 25) } else { rand_cnf(&mut rng, nmax, 8, 25) };
+        if regroup && rng.chance(1, 4) {
+            if let Some((cl, sels, _)) = regroup_cnf(&mut rng, nmax) {
+                // scripted prefix: falsify selector 1 (and satisfy selector 2), look, undo; then the other way round
+                c = cl;
+                let (s1, s2) = (sels[0], sels[1]);
+                for (f, t) in [(s1, s2), (s2, s1)] {
+                    script.push_back(Some((f.0, !f.1)));
+                    if t.0 != f.0 {
+                        script.push_back(Some((t.0, t.1)));
+                        script.push_back(None);
+                    }
+                    script.push_back(None);
+                }
+            }
+        }
         let cnf = mk_cnf(&c);
         let nv = cnf.num_vars();
         let mut ev = json!({"ev": "snew", "nv": nv, "cnf": stored_json(&cnf)});
@@ -141,7 +184,13 @@ pub fn record_sat(args: &Args) {
         }
         let mut depth = 2usize;
         for _ in 0..len {
-            if depth > 2 && rng.chance(2, 5) {
+            let scripted = script.pop_front();
+            let do_pop = match scripted {
+                Some(None) => depth > 2,
+                Some(Some(_)) => false,
+                None => depth > 2 && rng.chance(2, 5),
+            };
+            if do_pop {
                 let mut ev = json!({"ev": "pop"});
                 if let Err(m) = guarded(|| s.pop()) {
                     ev["panic"] = json!(m);
@@ -157,7 +206,10 @@ pub fn record_sat(args: &Args) {
                 }
             } else {
                 let (mut v, mut p) = (rng.below(nv), rng.coin());
-                if attack && rng.chance(2, 3) {
+                if let Some(Some((sv, sp))) = scripted {
+                    v = sv;
+                    p = sp;
+                } else if attack && rng.chance(2, 3) {
                     // adversarial driver: falsify an unassigned literal of a clause that has no true literal yet, so that
                     // clauses are driven to unit / falsified through every one of their literals (watched or not)
                     let m = s.verif_model();
@@ -394,7 +446,7 @@ fn td_segment<'a, B: DecisionNNFBuilder<'a>>(b: &'a B, cnfs: &[Cnf], nv: usize, 
         if rng.chance(1, 3) {
             let a = rng.below(pool.len());
             let x = pool[a];
-            let kind = *rng.pick(&["real", "bool", "ff", "complex", "eu", "poly", "rat"]);
+            let kind = *rng.pick(&["real", "bool", "ff", "complex", "eu", "poly", "rat", "polyhi"]);
             let wq = crate::bdd_rec::gen_weights(rng, kind, nv, true);
             let mut ev = json!({"ev": "wmc", "a": [a]});
             wq.log(&mut ev);
@@ -440,6 +492,19 @@ pub fn record_topdown(args: &Args) {
                 c.swap(0, i);
             }
         }
+        // regrouping family: two assignments of the selector variables leave residual CNFs with the same literals grouped
+        // differently (a component-cache key that forgets clause boundaries answers one with the other's diagram);
+        // the selectors are decided first
+        let mut first: Vec<usize> = vec![];
+        if rng.chance(1, 6) {
+            if let Some((cl, sels, _)) = regroup_cnf(&mut rng, nmax) {
+                c = cl;
+                first = vec![sels[0].0];
+                if sels[1].0 != sels[0].0 {
+                    first.push(sels[1].0);
+                }
+            }
+        }
         let cnf = mk_cnf(&c);
         let nv = cnf.num_vars();
         // one builder may compile several CNFs over the same variables: later compilations meet the nodes
@@ -473,7 +538,13 @@ pub fn record_topdown(args: &Args) {
             }
         }
         cnfs.retain(|c| c.num_vars() == nv);
-        let order = rng.perm(nv);
+        let mut order = rng.perm(nv);
+        if !first.is_empty() && first.iter().all(|v| *v < nv) {
+            order.retain(|v| !first.contains(v));
+            let mut o = first.clone();
+            o.extend(order);
+            order = o;
+        }
         let store = if rng.coin() { "std" } else { "sem" };
         let tcap = *rng.pick(&[0usize, 0, 2, 8]);
         rsdd::verif::set_table_capacity(tcap);
